@@ -231,6 +231,34 @@ func checkC07(c *Ctx, r *Report) {
 	isNilRule(c, r)
 	addressabilityRule(c, r)
 	typeAgreementRule(c, r)
+	noGrowByResliceRule(c, r, be)
+}
+
+// noGrowByResliceRule (R07k): a node's list ([]value) never grows by re-slicing into its spare
+// capacity. The slots between len and cap hold whatever was there (delAt leaves nil behind); a list
+// extended that way contains nil interface values, and the next traversal (Unpack, FlattenedKeys,
+// Merge) calls a method on nil. The compiler accepts high <= cap, so these sites are not in its
+// bounds-check report: every re-slice of a []value with an upper bound is proved against len here.
+func noGrowByResliceRule(c *Ctx, r *Report, be *boundsEngine) {
+	r.Rule("R07k", "every re-slice x[:h] / x[l:h] of a node's list ([]value) has h <= len(x): lists grow only by make+copy+fill or append, never into capacity left over by a removal", 1)
+	valueT := c.Named("", "value")
+	for _, fn := range c.SrcFuncs() {
+		if fn.Pkg != c.SSA[""] {
+			continue
+		}
+		Instrs(fn, false, func(in ssa.Instruction) {
+			sl, ok := in.(*ssa.Slice)
+			if !ok || sl.High == nil {
+				return
+			}
+			st, ok := sl.X.Type().Underlying().(*types.Slice)
+			if !ok || !types.Identical(st.Elem(), valueT) {
+				return
+			}
+			okp, why := be.proveSite(fn, sl, 0)
+			r.Check(okp, "R07k", c.FnName(fn), "re-slice of node list", c.Pos(sl.Pos()), why, "a node's list is re-sliced with an upper bound that is not provably within its length ("+why+"): slots beyond len are stale (nil after a removal) and become elements; the next traversal of the list dereferences nil")
+		})
+	}
 }
 
 func opKind(in ssa.Instruction) string {
